@@ -7,9 +7,16 @@ import math
 import time
 
 from math import floor
-from itertools import compress, accumulate, islice
+from itertools import compress, accumulate, islice, repeat
 from operator import mul,add
 from typing import Optional, Iterable, Sequence, Union, Tuple, Any
+
+_min = min #the builtin, for the methods below that have a parameter called min
+
+def _below(x: float) -> float:
+    """The largest float less than x (math.nextafter requires Python 3.9)."""
+    m,e = math.frexp(x)
+    return x-math.ldexp(1.0,e-(54 if m == 0.5 else 53))
 
 class CobaRandom:
     """A random number generator."""
@@ -55,7 +62,9 @@ class CobaRandom:
         Returns:
             The generated random number in [`min`,`max`).
         """
-        return min+(max-min)*next(self._randu)
+        r = min+(max-min)*next(self._randu)
+        #the sum can round up to max when max-min is tiny relative to max
+        return r if r < max or max <= min else _below(max)
 
     def randoms(self, n:int, min:float=0, max:float=1) -> Sequence[float]:
         """Generate `n` uniform random numbers in [`min`,`max`).
@@ -79,6 +88,8 @@ class CobaRandom:
             out = map(diff.__mul__,out)
         if min != 0:
             out = map(min.__add__,out)
+            if diff > 0: #the sum can round up to max when diff is tiny relative to max
+                out = map(_min,out,repeat(_below(max)))
 
         return list(islice(out,n)) if n is not None else out
 
